@@ -65,7 +65,7 @@ type oblResult struct {
 // discharge runs all obligations through the portfolio in parallel.
 func discharge(obls []*vc.Obligation, dir string, timeoutS int, all bool) []oblResult {
 	res := make([]oblResult, len(obls))
-	sem := make(chan struct{}, 10)
+	sem := make(chan struct{}, 6)
 	var wg sync.WaitGroup
 	for i, o := range obls {
 		wg.Add(1)
